@@ -128,7 +128,7 @@ Apply(m, e) ==
       \* trip) gives an equal map.  In the specification maps are values, so these are identities;
       \* the events exist to be executed on the code: <<equal, independent one way, independent the other>>
       \* small API surface without a state of its own, executed on the code only: <<Default iterators are
-      \* empty, Debug formatting terminates and names every stored prefix, a cloned / re-viewed TrieView shows
+      \* empty, Debug formatting terminates, a cloned / re-viewed TrieView shows
       \* the same, IntoIterator of a view = iter()>>
       [] e.a = "Misc"           -> Res(m, <<1, 1, 1, 1>>)
       [] e.a = "CloneCheck"     -> Res(m, <<1, 1, 1>>)
